@@ -53,10 +53,24 @@ def _data():
 
 class World(object):
     """User models + everything derived from them."""
-    def __init__(self):
+    def __init__(self, pre=()):
         self.user_mech = chi.library.ModelLibrary().one_compartment_pk_model()
         self.user_mech.set_administration('central', direct=True)
+        # what the user did with the model before building anything from it
+        for p in pre:
+            if p in ('sim0', 'sim1'):
+                self.user_mech.simulate(list(POINTS['ll'][int(p[3])][:3]),
+                                        [0.5, 1.5, 2.5])
+            elif p == 'sensOn':
+                self.user_mech.enable_sensitivities(True)
+            elif p == 'sensOff':
+                self.user_mech.enable_sensitivities(False)
         self.user_err = chi.GaussianErrorModel()
+        # a user error model with a parameter fixed already, and two sibling
+        # predictive models / a likelihood built from it
+        self.user_err_red = chi.ReducedErrorModel(
+            chi.ConstantAndMultiplicativeGaussianErrorModel())
+        self.user_err_red.fix_parameters({'Sigma rel.': 0.2})
         self.df = _data()
         c = chi.ProblemModellingController(self.user_mech, [self.user_err])
         c.set_data(self.df, output_observable_dict={
@@ -75,6 +89,11 @@ class World(object):
             [self.obj['llA'], self.obj['llB']], pop)
         self.obj['pred'] = c.get_predictive_model()
         self.obj['pred'].set_dosing_regimen(2.0, start=0.2, duration=0.3)
+        self.obj['predR'] = chi.PredictiveModel(ToyModel(2, 1), [self.user_err_red])
+        self.obj['predR2'] = chi.PredictiveModel(ToyModel(2, 1),
+                                                 [self.user_err_red])
+        self.obj['llR'] = chi.LogLikelihood(
+            ToyModel(2, 1), [self.user_err_red], [1.2, 0.7], [0.5, 1.5])
         # toy family: filter posterior
         y = np.array([[[1.0, 2.0, 1.5]], [[1.4, 2.6, 1.1]]])
         self.obj['filter'] = chi.GaussianKDEFilter(y)
@@ -101,6 +120,7 @@ POINTS = {
                        0.3, 0.1, 0.4, 0.8, 0.3, -0.5, 0.3]),
              np.array([0.7, -0.4, 0.9, 1.3, 0.2, 0.4,
                        0.1, 0.2, 0.5, 0.9, 0.2, -0.7, 0.4])],
+    'llR': [np.array([1.1, 0.6, 0.4]), np.array([0.8, 0.9, 0.3])],
     'filter': [np.array([[[1.2, 2.2, 1.0]], [[0.8, 1.9, 1.6]], [[1.5, 2.8, 1.2]],
                          [[1.1, 2.5, 1.4]]]),
                np.array([[[0.9, 2.4, 1.3]], [[1.1, 2.0, 0.9]], [[1.6, 3.1, 1.5]],
@@ -171,7 +191,7 @@ def model_ops():
             elif name.startswith('err'):
                 kinds = ('e_ll', 'e_pw', 'e_sens', 'e_sample')
             else:
-                kinds = ('sim', 'simS')
+                kinds = ('sim', 'simS', 'simC')
             for kind in kinds:
                 ops.append([kind, name, k])
     return ops
@@ -209,6 +229,11 @@ def apply_model(world, op):
     elif kind == 'simS':
         o.enable_sensitivities(True)
         r = list(o.simulate(args[0], args[1]))
+    elif kind == 'simC':
+        # a copy taken now (copying resets the sensitivities) simulates like the
+        # original without sensitivities
+        r = o.copy().simulate(args[0], args[1])
+        r = [r[0] if isinstance(r, tuple) else r]
     else:
         raise ValueError(kind)
     clean = all(b is not None and np.array_equal(a, b)
@@ -217,14 +242,14 @@ def apply_model(world, op):
 
 
 MODEL_KINDS = ('m_ll', 'm_sens', 'm_psi', 'm_sample', 'e_ll', 'e_pw', 'e_sens',
-               'e_sample', 'sim', 'simS')
+               'e_sample', 'sim', 'simS', 'simC')
 
 
 def ptype(name):
     if name.startswith('filter'):
         return 'filter'
     return {'llA': 'll', 'llB': 'll', 'postA': 'll', 'postB': 'll', 'hier': 'hier',
-            'fpost': 'fpost'}[name]
+            'fpost': 'fpost', 'llR': 'llR'}[name]
 
 
 def all_ops():
@@ -245,8 +270,12 @@ def all_ops():
     ops.append(['sample', 'pred', 3])
     ops.append(['sample', 'pred', 4])
     ops.append(['init', 'postA', 3])
+    ops.append(['sampleR', 'predR', 3])
+    ops.append(['sampleR', 'predR2', 3])
+    ops.append(['call', 'llR', 0])
+    ops.append(['S1', 'llR', 1])
     for m in ('mut_outputs', 'mut_regimen', 'mut_adm', 'mut_sens', 'mut_names',
-              'mut_err'):
+              'mut_err', 'mut_err_refix', 'mut_sib_refix'):
         ops.append([m, 'user', 0])
     return ops
 
@@ -273,6 +302,13 @@ def apply(world, op):
                 pass      # renamed before: chi refuses an existing name
         elif kind == 'mut_err':
             world.user_err.set_parameter_names(['S'])
+        elif kind == 'mut_err_refix':
+            # the user re-fixes the parameter of their own reduced error model
+            world.user_err_red.fix_parameters({'Sigma rel.': 0.9})
+        elif kind == 'mut_sib_refix':
+            # ... or fixes it on a sibling predictive model built from it
+            world.obj['predR2'].fix_parameters({'Sigma rel.': 0.7})
+            return ['mutated'], True
         return ['mutated'], True
     o = world.obj[name]
     if kind == 'sample':
@@ -281,6 +317,12 @@ def apply(world, op):
         t0, th0 = times.copy(), theta.copy()
         r = o.sample(theta, times, n_samples=2, seed=k, return_df=False)
         return [r], np.array_equal(times, t0) and np.array_equal(theta, th0)
+    if kind == 'sampleR':
+        theta = np.array([0.9, 1.3, 0.4])
+        times = np.array([2.0, 0.5, 1.2])
+        r = o.sample(theta[:o.n_parameters()], times, n_samples=2, seed=k,
+                     return_df=False)
+        return [r], True
     if kind == 'init':
         return [o.sample_initial_parameters(n_samples=2, seed=k)], True
     x = POINTS[ptype(name)][k].copy()
@@ -309,10 +351,13 @@ def apply(world, op):
 
 
 @functools.lru_cache(maxsize=None)
-def reference(op_key):
-    """Result of the operation on a freshly built world."""
+def reference(op_key, own=()):
+    """Result of the operation on a freshly built world (`own`: reconfigurations
+    of the evaluated object itself that happened before, replayed first)."""
     op = list(op_key)
     w = ModelWorld() if op[0] in MODEL_KINDS else World()
+    for o in own:
+        apply(w, list(o))
     r, _ = apply(w, op)
     return r
 
@@ -354,7 +399,10 @@ def check_history(world, history, viol, where='same process'):
                     'behaviour': 'retained:%s:%s' % (history[j][0], history[j][1])})
                 return False
         retained.append((i, got, _snapshot(got)))
-        exp = reference(tuple(op))
+        own = ()
+        if op[1] == 'predR2' and any(h[0] == 'mut_sib_refix' for h in history[:i]):
+            own = (('mut_sib_refix', 'user', 0),)
+        exp = reference(tuple(op), own)
         if op[0] == 'fail':
             exp = [-np.inf]
         if not clean:
@@ -380,7 +428,7 @@ def w_history(case):
         check_history(ModelWorld(), case['ops'], viol)
         return {'transitions': len(case['ops']) + 1,
                 'outcome': key_of(case['ops']), 'violations': viol}
-    w = World()
+    w = World(tuple(case.get('pre', ())))
     df0 = w.df.copy(deep=True)
     check_history(w, case['ops'], viol)
     if not df0.equals(w.df):
@@ -482,6 +530,14 @@ def build(tier, seed):
             for b in mids[::2]:
                 for c in ll_ops[1::2]:
                     hist.append({'ops': [a, b, c]})
+    # the user model was used before anything was built from it
+    sbml_e = [o for o in evals if o[1] in ('llA', 'llB', 'postA', 'hier', 'pred')]
+    for pre in (['sim0'], ['sim1'], ['sim0', 'sensOn'], ['sensOn', 'sim1'],
+                ['sim1', 'sensOn', 'sensOff']):
+        for a in sbml_e:
+            hist.append({'pre': pre, 'ops': [a]})
+            for b in (sbml_e if tier == 'thorough' else sbml_e[::3]):
+                hist.append({'pre': pre, 'ops': [a, b]})
     # models: all ordered pairs over all models, all triples within one model
     mops = model_ops()
     mh = [{'world': 'models', 'ops': [a]} for a in mops]
